@@ -38,6 +38,9 @@ pub const CORPUS: &[(&str, &str)] = &[
     ("zero-terminals-deep", "S -> A B ; A -> B B ; B ->"),
     ("same-rhs", "S -> A a | B b ; A -> c ; B -> c"),
     ("sep-list", "L -> L , x | x"),
+    ("concat-twins-1", "S -> c N X Y | d N Z ; N -> i ; Z -> ( ) ; X -> n ; Y -> [ ]"),
+    ("concat-twins-2", "S -> N X Y | S , N Z ; N -> i | N i ; Z -> z | ; X -> x | ; Y -> y Y | w"),
+    ("concat-twins-3", "S -> P X Y e | Q Z e ; P -> p ; Q -> p p ; X -> x ; Y -> | y ; Z -> | z Z"),
     ("right-list", "L -> x L |"),
     ("right-list-no-eps", "L -> x L | x"),
     ("right-sep-list-no-eps", "L -> x , L | x"),
